@@ -76,7 +76,7 @@ def pairs(names):
 
 def judge(layout, names, deliver, ex, info):
     """C04 oracle for one execution."""
-    site = f'{layout}:threads:{names[0]}||{names[1]}' + \
+    site = f'{layout}:threads:' + '||'.join(names) + \
         ('+delivery' if deliver else '')
     out = []
     sched = mt.explain(ex)
